@@ -65,7 +65,7 @@ def ensure_makefile():
             raise BuildError("coq_makefile", r.stdout + r.stderr)
 
 
-def make(targets, timeout=1800, keep_going=False):
+def make(targets, timeout=900, keep_going=False):
     """make the given .vo targets (paths relative to coq/). Returns combined output."""
     with _Lock():
         ensure_makefile()
